@@ -66,6 +66,10 @@ fn walk(it: &mut wirm::iterator::module_iterator::ModuleIterator, limit: usize, 
             Some(o) => format!("{:?}", o),
             None => return Err(format!("curr_op() is None at visited location func {} instr {}", *func_idx, instr_idx)),
         };
+        let owned = it.curr_op_owned().map(|o| format!("{:?}", o));
+        if owned.as_deref() != Some(op.as_str()) {
+            return Err(format!("curr_op_owned() is {:?} where curr_op() is {} (func {} instr {})", owned, op, *func_idx, instr_idx));
+        }
         seq.push((*func_idx, instr_idx, op, is_end));
         if seq.len() > limit {
             return Err(format!("iterator visited more than {} instructions", limit));
@@ -361,9 +365,25 @@ where
 /// for it are issued (instruction-level ones first, function-level ones at the function's
 /// last instruction).  Returns the visit sequence and, per plan entry, whether the call was
 /// rejected (panicked).
+/// `curr_op_owned()` is an inherent method of both iterators: the owned copy of the operator
+/// `curr_op()` borrows.
+trait OwnedOp {
+    fn owned_dbg(&self) -> Option<String>;
+}
+impl OwnedOp for wirm::iterator::module_iterator::ModuleIterator<'_, '_> {
+    fn owned_dbg(&self) -> Option<String> {
+        self.curr_op_owned().map(|o| format!("{:?}", o))
+    }
+}
+impl OwnedOp for wirm::iterator::component_iterator::ComponentIterator<'_, '_> {
+    fn owned_dbg(&self) -> Option<String> {
+        self.curr_op_owned().map(|o| format!("{:?}", o))
+    }
+}
+
 fn pass<'a, I>(it: &mut I, plan: &[(u32, Inj)], this_mod: Option<u32>, limit: usize) -> Result<(Vec<CVisit>, Vec<Option<String>>), String>
 where
-    I: wirm::iterator::iterator_trait::Iterator + IteratingInstrumenter<'a> + Inject<'a> + InjectAt<'a> + Instrumenter<'a>,
+    I: wirm::iterator::iterator_trait::Iterator + IteratingInstrumenter<'a> + Inject<'a> + InjectAt<'a> + Instrumenter<'a> + OwnedOp,
 {
     let mut seq: Vec<CVisit> = vec![];
     let mut rejected: Vec<Option<String>> = vec![None; plan.len()];
@@ -379,6 +399,10 @@ where
             Some(o) => format!("{:?}", o),
             None => return Err(format!("curr_op() is None at visited location module {} func {} instr {}", mi, f, i)),
         };
+        let owned = it.owned_dbg();
+        if owned.as_deref() != Some(op.as_str()) {
+            return Err(format!("curr_op_owned() is {:?} where curr_op() is {} (module {} func {} instr {})", owned, op, mi, f, i));
+        }
         seq.push((mi, f, i, op, is_end));
         if seq.len() > limit {
             return Err(format!("iterator visited more than {} instructions", limit));
